@@ -73,6 +73,9 @@ func of(v reflect.Value, m Mode, single bool) *Node {
 		if tm.IsZero() {
 			return nil
 		}
+		if m == JSON {
+			tm = tm.Truncate(time.Second) // N2: the JSON form of an instant is UTC whole seconds
+		}
 		return &Node{K: "time", S: tm.UTC().Format(time.RFC3339Nano)}
 	case tDuration:
 		d := v.Interface().(time.Duration)
